@@ -725,8 +725,8 @@ class Exec:
         for k, v in self.config.items():
             # configuration constraints, e.g. policy fixed to 'min'
             path = k.split(".")
-            if len(path) == 1 and v is None:
-                st.locals[k] = None
+            if len(path) == 1 and (v is None or isinstance(v, (str, bool))):
+                st.locals[k] = v          # a concrete configuration value (None / a concrete string)
                 continue
             val = self.read_path(st, path)
             st.assume(L.eq(val, v))
@@ -1830,6 +1830,8 @@ class Exec:
             return base[idx]
         if isinstance(base, MatrixRow):
             return base[idx]
+        if isinstance(base, tuple) and base and isinstance(base[0], str) and base[0] == "pylist" and isinstance(idx, int):
+            return base[1][idx]
         if isinstance(base, tuple):
             if isinstance(idx, int):
                 return base[idx]
@@ -1927,7 +1929,7 @@ class Exec:
                 raise Unsupported("`is` on non-None values")
             return r if isinstance(op, ast.Is) else (not r)
         if isinstance(op, (ast.In, ast.NotIn)):
-            if isinstance(b, tuple) and b and b[0] == "pylist":
+            if isinstance(b, tuple) and b and isinstance(b[0], str) and b[0] == "pylist":
                 items = b[1]
             elif isinstance(b, tuple):
                 items = list(b)
@@ -2073,6 +2075,20 @@ class Exec:
             raise Unsupported("call to %s at line %d" % (nm, e.lineno))
         if isinstance(f, ast.Name) and isinstance(st.locals.get(f.id), FnVal):
             return st.locals[f.id](*[self.eval(st, a) for a in e.args])
+        if isinstance(f, ast.Subscript) and ast.unparse(f.value) in ("d.DISTANCES", "DISTANCES"):
+            # the registry entry selected by name: `the metric`, an application of the uninterpreted DFN
+            args = [self.eval(st, a) for a in e.args]
+            return DFN(args[0], args[1])
+        if isinstance(f, ast.Attribute) and not (isinstance(f.value, ast.Name) and f.value.id in self.aliases):
+            try:
+                b0 = self.eval(st, f.value) if isinstance(f.value, (ast.Name, ast.Constant)) else None
+            except Unsupported:
+                b0 = None
+            if isinstance(b0, str) and f.attr in ("split", "endswith", "startswith", "lower", "upper", "strip"):
+                cargs = [self.eval(st, a) for a in e.args]
+                if all(isinstance(a, (str, int)) for a in cargs):
+                    r = getattr(b0, f.attr)(*cargs)
+                    return ("pylist", list(r)) if isinstance(r, list) else r
         if isinstance(f, ast.Attribute) and isinstance(f.value, ast.Call) and isinstance(f.value.func, ast.Name) \
                 and f.value.func.id == "super":
             # super(Class, self).method(...): resolved statically in the bases of Class
